@@ -805,4 +805,51 @@ func c20(out *rec.Out, rng *rec.Rng, tier string, stats map[string]int) {
 			c20engine(out, b, f, k, b != "sno" || thorough, stats)
 		}
 	}
+	// 6. LAST (it uses up the process-wide sno partition pool): one long-lived generator and, one after the other, a
+	// little more than 2^16 short-lived ones (one generator per process instance in a long-running program)
+	c20manyGens(out, 1<<16+16, stats)
+}
+
+// c20manyGens: a long-lived generator stays in use while n short-lived generators are created one after the other, each
+// through the default path of the library (sno; the fallback generator when sno cannot deliver one). Two ids from the
+// keeper and two from the newcomer per round; no id may show up twice.
+func c20manyGens(out *rec.Out, n int, stats map[string]int) {
+	out.Begin("c20", "many_gens", 1, 4, n)
+	defer out.End()
+	env := c20newEnv()
+	defer env.close()
+	c20guard(out, func() {
+		mk := func() id.IGenerator {
+			g, err := id.GetSno().NewIdGenerator(env.ctx, env.tracer)
+			if err != nil {
+				stats["many_gens_fallback_generators"]++
+				return id.NewFallbackGenerator()
+			}
+			return g
+		}
+		keeper := mk()
+		seen := make(map[string]struct{}, 4*n)
+		dups, first := 0, "-"
+		rec := func(x id.Id) {
+			k := x.String()
+			if _, dup := seen[k]; dup {
+				dups++
+				if first == "-" {
+					first = k
+				}
+				return
+			}
+			seen[k] = struct{}{}
+		}
+		for i := 0; i < n; i++ {
+			short := mk()
+			for d := 0; d < 2; d++ {
+				rec(keeper.New())
+				rec(short.New())
+			}
+		}
+		out.Line("stress manygens goroutines 1 each 4 gens %d total %d dups %d first %s", n, len(seen)+dups, dups, first)
+		stats["many_gens_ids"] += len(seen) + dups
+	})
+	stats["cases"]++
 }
